@@ -208,6 +208,55 @@ def rec_from_wire(w):
 
 KF2 = "KF2"   # aliasing: a compressed name points into bytes an in-place setter rewrites
 KF5 = "KF5"   # the OPT record itself mutated through the OPT-including walk
+KF6 = "KF6"   # insert_rr() of a record built with RR::new whose type/data the validator does not admit
+
+
+def plain_name_end(b, off, host_chars):
+    """end of a pointer-free name at `off` of `b` (labels 1..63, total <= 255), or None"""
+    total = 0
+    while True:
+        if off >= len(b):
+            return None
+        l = b[off]
+        if l & 0xc0:
+            return None
+        total += l + 1
+        if total > 255 or off + 1 + l > len(b):
+            return None
+        if host_chars and any(c < 32 or c == 127 or c == 46 or c == 92 for c in b[off + 1:off + 1 + l]):
+            return None
+        off += 1 + l
+        if l == 0:
+            return off
+
+
+def raw_record_admissible(sec, typ, rd):
+    """would the validator accept this record (built by RR::new, so pointer-free) in this section?"""
+    if sec == "Q":
+        return False
+    if typ == 41:
+        return False          # a second way of writing the OPT pseudo-record: the EDNS summary is not maintained (KF6)
+    if typ == 1:
+        return len(rd) == 4
+    if typ == 28:
+        return len(rd) == 16
+    if typ in (2, 5, 12):
+        return len(rd) > 0 and plain_name_end(rd, 0, True) == len(rd)
+    if typ == 15:
+        return len(rd) > 2 and plain_name_end(rd, 2, True) == len(rd)
+    if typ == 6:
+        e1 = plain_name_end(rd, 0, True) if len(rd) > 21 else None
+        e2 = plain_name_end(rd, e1, True) if e1 is not None else None
+        return e2 is not None and e2 + 20 == len(rd)
+    if typ == 39:
+        return len(rd) > 0 and plain_name_end(rd, 0, False) == len(rd)
+    return True
+
+
+def raw_record_wire(op):
+    name = refsynth.name_wire(_hex(op[2]))
+    rd = b"" if op[6] == "-" else _hex(op[6])
+    return name + int(op[3]).to_bytes(2, "big") + int(op[4]).to_bytes(2, "big") + int(op[5]).to_bytes(4, "big") + len(rd).to_bytes(2, "big") + rd, rd
 
 
 def name_positions(p, off):
@@ -307,6 +356,12 @@ def judge(case, a):
             if st is not None and st["res"] == "ok":
                 waived.add(KF4)
                 return fails, waived
+        if name == "insertrr":
+            st = parse_state(pieces[i])
+            rd = b"" if op[6] == "-" else _hex(op[6])
+            if st is not None and st["res"] == "ok" and not raw_record_admissible(op[1], int(op[3]), rd):
+                waived.add(KF4 if op[1] == "Q" else KF6)
+                return fails, waived
         st = parse_state(pieces[i])
         if st is None:
             fails.append(("C08,C09,C10,C11", "operation `%s` panicked" % " ".join(op)[:80], i))
@@ -317,7 +372,7 @@ def judge(case, a):
         elif name in ("next", "nextopt"):
             if res != "some":
                 cursor_sec = None
-        elif name in ("close", "insert", "insertq", "rename", "recompute"):
+        elif name in ("close", "insert", "insertq", "insertrr", "rename", "recompute"):
             cursor_sec = None
         reason, w = check_c08_state(st, cursor_sec)
         waived |= w
@@ -334,7 +389,7 @@ def judge(case, a):
                 if eff:
                     fails.append((eff[0], "`%s` (%s): %s" % (" ".join(op)[:60], res, eff[1]), i))
                     break
-        if name in ("insert", "insertq") and res == "ok" and len(st["bytes"]) > 8192:
+        if name in ("insert", "insertq", "insertrr") and res == "ok" and len(st["bytes"]) > 8192:
             fails.append(("C10", "insertion produced a packet of %d bytes (> 8192)" % len(st["bytes"]), i))
             break
         before_bytes = st["bytes"]
@@ -391,6 +446,16 @@ def check_effect(op, res, mb, ma, prev, st, before_bytes):
             r = rename_hook(before_bytes, op, res, st["bytes"])
             if r:
                 return ("C07", r)
+        return None
+    if name == "insertrr":
+        s = {"A": 0, "N": 1, "R": 2}[op[1]]
+        wire, _ = raw_record_wire(op)
+        r = rec_from_wire(wire)
+        exp = [tb[0], list(tb[1]), tb[2], [list(x) for x in tb[3]]]
+        exp[1][1 + s] += 1
+        exp[3][s].append(r.key())
+        if exp != ta:
+            return ("C09", "insert_rr(RR::new(..)) did not append exactly the given record at the end of its section")
         return None
     if name in ("insert", "insertq"):
         s = {"Q": -1, "A": 0, "N": 1, "R": 2}[op[1]] if name == "insert" else -1
@@ -460,6 +525,18 @@ def judge_full(case, a, keep_going=False):
                     return fails, waived
             except (refsynth.Outside, refsynth.Refused, refdec.Undecodable, KeyError, IndexError, ValueError):
                 pass
+        if name == "insertrr" and res.startswith("err:") and prev_bytes is not None and not (waived - {KF1}):
+            try:
+                wire, rd = raw_record_wire(op)
+                mb0 = refdec.decode(prev_bytes)
+                plain = len(refdec.encode(mb0))
+                s_idx = {"A": 0, "N": 1, "R": 2}[op[1]]
+                qr_ok = op[1] == "R" or (mb0.header[2] & 0x80)
+                if raw_record_admissible(op[1], int(op[3]), rd) and plain + len(wire) <= 8192 and mb0.counts[1 + s_idx] < 65535 and qr_ok:
+                    fails.append(("C09", "insert_rr of a valid record that fits (%d + %d bytes) was refused: %s" % (plain, len(wire), res), i))
+                    return fails, waived
+            except (refsynth.Outside, refsynth.Refused, refdec.Undecodable, KeyError, IndexError, ValueError):
+                pass
         if name == "setname" and res == "err:PacketTooLarge" and prev_bytes is not None and cursor_sec in ("A", "N", "R", "O") and live_before:
             try:
                 mb0 = lax_decode(prev_bytes)
@@ -526,7 +603,7 @@ def judge_full(case, a, keep_going=False):
                             return fails, waived
                 except (refdec.Undecodable, ValueError):
                     pass
-        elif name in ("close", "insert", "insertq", "rename", "recompute"):
+        elif name in ("close", "insert", "insertq", "insertrr", "rename", "recompute"):
             cursor_sec = None
         prev_bytes = st["bytes"]
         prev_state = st
